@@ -29,6 +29,7 @@ type c15Res struct {
 	detail   string
 	// non-vacuity observations
 	rows     map[string]int
+	filled   map[string]bool // "<table>.<column>" holds a non-NULL value in some row
 	cursors  map[string]uint64
 	notifs   int
 	lookups  int
@@ -88,6 +89,7 @@ func countSQL(sqls []string, res *c15Res) {
 
 func observe(w *world.W, res *c15Res, needles []string) {
 	res.rows = map[string]int{}
+	res.filled = map[string]bool{}
 	has := func(s string) {
 		for _, n := range needles {
 			if strings.Contains(s, n) {
@@ -99,7 +101,10 @@ func observe(w *world.W, res *c15Res, needles []string) {
 		rows := w.PG.Dump(t)
 		res.rows[t] = len(rows)
 		for _, r := range rows {
-			for _, v := range r.Vals {
+			for col, v := range r.Vals {
+				if v != nil {
+					res.filled[t+"."+col] = true
+				}
 				switch x := v.(type) {
 				case string:
 					has(x)
